@@ -20,7 +20,7 @@ import (
 	"verif/vk"
 )
 
-const c10Rule = "rapid-generated programs of 1-40 field-map operations (typed/raw setters, overwrite, Remove, Clear, set again, SetGroup with nested templates, CopyInto) on header/body/trailer; non-trivial = program contains remove->set of the same tag, clear->set, an overwrite, a group, or a copy of a message holding a group; distinct = distinct operation trace"
+const c10Rule = "rapid-generated programs of 1-40 field-map operations (typed/raw setters, overwrite, Remove, Clear, set again, SetGroup with nested templates, CopyInto a fresh, a dirty or a previously built message) on header/body/trailer of up to three messages; non-trivial = program contains remove->set of the same tag, clear->set, an overwrite, a group, or a copy of a message holding a group; distinct = distinct operation trace"
 
 func c10() *stats.Collector {
 	c := stats.Get("C10")
@@ -550,14 +550,43 @@ func c10Property(t *rapid.T) {
 			feat["group"] = true
 			trace = append(trace, fmt.Sprintf("m%d.body.SetGroup(%v)", cm.id, g.flatten()))
 		case "copy":
-			if len(msgs) >= 3 {
-				continue
-			}
 			ensureHead(cm)
-			dst := &c10msg{id: len(msgs), q: quickfix.NewMessage(), m: &mMsg{cm.m.h.clone(), cm.m.b.clone(), cm.m.t.clone()}}
-			if rapid.Bool().Draw(t, "dirty-dst") {
-				dst.q.Body.SetString(58, "old")
-				dst.q.Header.SetString(50, "old")
+			var dst *c10msg
+			if len(msgs) < 3 && (len(msgs) == 1 || rapid.Bool().Draw(t, "new-dst")) {
+				dst = &c10msg{id: len(msgs), q: quickfix.NewMessage()}
+				if rapid.Bool().Draw(t, "dirty-dst") {
+					dst.q.Body.SetString(58, "old")
+					dst.q.Header.SetString(50, "old")
+					if rapid.Bool().Draw(t, "dirty-trailer") {
+						dst.q.Trailer.SetString(93, "3")
+					}
+					if rapid.Bool().Draw(t, "built-dst") {
+						dst.q.Header.SetString(8, "FIX.4.2")
+						dst.q.Header.SetString(35, "0")
+						_ = dst.q.String()
+						feat["copy-into-used-message"] = true
+					}
+				}
+				msgs = append(msgs, dst)
+			} else {
+				// an existing message object (possibly built before) is the destination
+				var others []*c10msg
+				for _, o := range msgs {
+					if o != cm {
+						others = append(others, o)
+					}
+				}
+				if len(others) == 0 {
+					continue
+				}
+				dst = others[rapid.IntRange(0, len(others)-1).Draw(t, "dst")]
+				feat["copy-into-used-message"] = true
+			}
+			dst.m = &mMsg{cm.m.h.clone(), cm.m.b.clone(), cm.m.t.clone()}
+			for k := range removed {
+				if strings.HasPrefix(k, fmt.Sprintf("%d/", dst.id)) {
+					delete(removed, k)
+				}
 			}
 			cm.q.CopyInto(dst.q)
 			for _, it := range cm.m.b {
@@ -572,7 +601,6 @@ func c10Property(t *rapid.T) {
 				vk.Violation(t, c, "C10/copy/serialises-differently/"+featClass(feat), "source %s\ncopy   %s\ntrace %v", vk.Show([]byte(src)), vk.Show([]byte(cp)), trace)
 			}
 			// the removed-tag bookkeeping is per message object: the copy starts clean
-			msgs = append(msgs, dst)
 		case "build":
 			ensureHead(cm)
 			verifyBuilt(t, cm, feat)
